@@ -210,7 +210,8 @@ def classify_failure(engine, exc: BaseException) -> dict[str, Any]:
     le = getattr(engine.interpreter, "_last_error", None)
     node = getattr(exc, "node", None) or (le[1] if le else None)
     root = le[0] if le and le[0] is not None else exc
-    frames = _frames(root) + (_frames(exc) if exc is not root else [])
+    root_frames = _frames(root)
+    frames = (_frames(exc) if exc is not root else []) + root_frames      # outermost first, raising function last
     funcs = [f for _, f in frames]
     inner = frames[-1] if frames else ("?", "?")
     line = node.position.line if node is not None else None
